@@ -955,7 +955,18 @@ impl<'a> Sim<'a> {
                     vec!["op".into(), "restore".into(), op[..16].to_owned()]
                 } else {
                     match self.pick_op(rng, 12) {
-                        Some(op) => vec!["op".into(), "restore".into(), op],
+                        Some(op) => {
+                            let mut v: Vec<String> = vec!["op".into(), "restore".into(), op];
+                            if self.prop == Prop::C41 {
+                                // single-portion restores
+                                match rng.below(8) {
+                                    0..=2 => v.extend(strs(&["--what", "repo"])),
+                                    3 => v.extend(strs(&["--what", "remote-tracking"])),
+                                    _ => {}
+                                }
+                            }
+                            v
+                        }
                         None => strs(&["status"]),
                     }
                 }
@@ -1617,6 +1628,20 @@ impl<'a> Sim<'a> {
                 }
                 let Some(target_view) = self.view_of(reader, &target) else { return Ok(()) };
                 let base_view = Self::single_parent(ops, &head).and_then(|p| reader.view_summary(p).ok());
+                if cmd.args.iter().any(|a| a == "remote-tracking") {
+                    // `--what remote-tracking`: nothing of the repo state (visible
+                    // commits, local bookmarks, tags, working-copy pointers) may change.
+                    if let Some(base) = &base_view
+                        && !nothing_changed
+                    {
+                        self.compare_views(reader, &head, &new_view, base, cmd.ws, "op_restore_remote_tracking_only", &cmdline)?;
+                        self.count("c41.op_restore.remote_tracking_only_checked");
+                    }
+                    return Ok(());
+                }
+                if cmd.args.iter().any(|a| a == "repo") {
+                    self.count("c41.op_restore.what_repo");
+                }
                 self.compare_views(reader, &head, &new_view, &target_view, cmd.ws, "op_restore", &cmdline)?;
                 self.count("c41.op_restore.checked");
                 if base_view.is_some_and(|b| b != target_view) && !nothing_changed {
@@ -1873,7 +1898,7 @@ fn run_prop(ctx: &Ctx, prop: Prop) -> i32 {
         // One jj invocation costs 0.3-1 s (debug binary); quick runs one
         // sequence per worker thread.
         Prop::C40 => (ctx.tier().pick(16, 160), ctx.tier().pick(20, 24)),
-        Prop::C41 => (ctx.tier().pick(16, 160), ctx.tier().pick(20, 24)),
+        Prop::C41 => (ctx.tier().pick(48, 320), ctx.tier().pick(20, 24)),
         Prop::C42 => (ctx.tier().pick(16, 160), ctx.tier().pick(14, 22)),
     };
     let base = scratch_dir(prop.name());
